@@ -184,3 +184,85 @@ func RunNilEntry(conf core.Config, patterns ...string) *core.Result {
 	}
 	return res
 }
+
+// RunDiag implements GRAPHINV.diag: in the dense-matrix graphs the diagonal
+// of the weight matrix is not an edge slot — it holds the `self` value that
+// Weight reports for x == y — so every store into the matrix at a position
+// given by two node IDs, g.mat.Set(int(a), int(b), …) or SetSym, is
+// unreachable on the control-flow graph pruned under a == b.
+func RunDiag(conf core.Config) *core.Result {
+	res := core.NewResult("GRAPHDIAG")
+	res.Rules = append(res.Rules, "GRAPHINV.diag: in the dense-matrix graph types no store g.mat.Set/SetSym(int(a), int(b), …) at a position given by two node IDs is reachable when a == b (the diagonal holds the self weight)")
+	res.Configs = append(res.Configs, conf.String())
+	pkgs, err := core.Load(conf, "./graph/simple")
+	if err != nil {
+		res.Brokenf("%v", err)
+		return res
+	}
+	for _, pkg := range pkgs {
+		info := pkg.TypesInfo
+		for _, f := range pkg.Syntax {
+			for _, d := range f.Decls {
+				fd, ok := d.(*ast.FuncDecl)
+				if !ok || fd.Body == nil || fd.Recv == nil {
+					continue
+				}
+				name := core.FuncName(pkg, fd)
+				idOf := func(e ast.Expr) types.Object {
+					e = ast.Unparen(e)
+					if c, ok := e.(*ast.CallExpr); ok && len(c.Args) == 1 {
+						if tv, ok := info.Types[c.Fun]; ok && tv.IsType() {
+							e = ast.Unparen(c.Args[0])
+						}
+					}
+					id, ok := e.(*ast.Ident)
+					if !ok {
+						return nil
+					}
+					return core.ObjOf(info, id)
+				}
+				ast.Inspect(fd.Body, func(n ast.Node) bool {
+					c, ok := n.(*ast.CallExpr)
+					if !ok || len(c.Args) != 3 {
+						return true
+					}
+					sel, ok := c.Fun.(*ast.SelectorExpr)
+					if !ok || (sel.Sel.Name != "Set" && sel.Sel.Name != "SetSym") {
+						return true
+					}
+					if in, ok := ast.Unparen(sel.X).(*ast.SelectorExpr); !ok || in.Sel.Name != "mat" {
+						return true
+					}
+					a, b := idOf(c.Args[0]), idOf(c.Args[1])
+					if a == nil || b == nil || a == b {
+						return true
+					}
+					res.Obligations++
+					res.Count("matrix_stores_at_a_pair_of_node_ids", 1)
+					g := cfgx.New(fd.Body, info)
+					g.Keep = cfgx.KeepUnder(func(e ast.Expr) (bool, bool) {
+						be, ok := ast.Unparen(e).(*ast.BinaryExpr)
+						if !ok || (be.Op != token.EQL && be.Op != token.NEQ) {
+							return false, false
+						}
+						x, y := idOf(be.X), idOf(be.Y)
+						if x == nil || y == nil || !((x == a && y == b) || (x == b && y == a)) {
+							return false, false
+						}
+						return be.Op == token.EQL, true
+					})
+					loc, ok := g.Where[c]
+					if !ok {
+						return true
+					}
+					if g.Reachable()[loc.Block] {
+						res.Add(core.Finding{Rule: "GRAPHINV.diag", Key: fmt.Sprintf("GRAPHINV.diag|%s|%s", name, types.ExprString(c.Fun)), Pos: core.Pos(c.Pos()), Func: name,
+							Msg: fmt.Sprintf("%s stores into the weight matrix at (%s, %s) without excluding equal IDs: for equal IDs the store overwrites the diagonal, which holds the self weight reported by Weight(x, x)", name, types.ExprString(c.Args[0]), types.ExprString(c.Args[1]))})
+					}
+					return true
+				})
+			}
+		}
+	}
+	return res
+}
